@@ -139,6 +139,65 @@ func (env *c16HandoffEnv) send(r *c16Req) (rcode int, err error) {
 	return -1, fmt.Errorf("unknown proto %q", r.Proto)
 }
 
+// c16StartRealServer starts a server with real UDP, TCP and DoT (and, if
+// asked, DoQ) listeners on fixed free loopback ports, a local upstream, a
+// recording query log, and the web-server side of DoH.  s is nil if that
+// failed (the report is made inconclusive then).
+func c16StartRealServer(t *testing.T, rep *verifkit.Report, withQUIC bool) (s *Server, qlog *c16QLog, doh *httptest.Server) {
+	ups := aghtest.StartLocalhostUpstream(t, dns.HandlerFunc(func(w dns.ResponseWriter, req *dns.Msg) {
+		resp := (&dns.Msg{}).SetReply(req)
+		if len(req.Question) == 1 && req.Question[0].Qtype == dns.TypeA {
+			resp.Answer = []dns.RR{&dns.A{
+				Hdr: dns.RR_Header{Name: req.Question[0].Name, Rrtype: dns.TypeA, Class: dns.ClassINET, Ttl: 60},
+				A:   net.IP{192, 0, 2, 1},
+			}}
+		}
+		_ = w.WriteMsg(resp)
+	})).String()
+
+	// Fixed free ports, never port 0: dnsproxy sets SO_REUSEPORT.
+	lo := net.IP{127, 0, 0, 1}
+	s, _ = createTestTLS(t, &TLSConfig{
+		TLSListenAddrs: []*net.TCPAddr{{IP: lo, Port: verifkit.FreePort()}},
+		ServerName:     tlsServerName,
+	})
+	qlog = &c16QLog{byName: map[string][]c16LogEntry{}}
+	for try := 0; ; try++ {
+		plain := verifkit.FreePort()
+		s.conf.TLSConf.TLSListenAddrs = []*net.TCPAddr{{IP: lo, Port: verifkit.FreePort()}}
+		if withQUIC {
+			s.conf.TLSConf.QUICListenAddrs = []*net.UDPAddr{{IP: lo, Port: verifkit.FreePort()}}
+		}
+		s.conf.UDPListenAddrs = []*net.UDPAddr{{IP: lo, Port: plain}}
+		s.conf.TCPListenAddrs = []*net.TCPAddr{{IP: lo, Port: plain}}
+		s.conf.UpstreamDNS = []string{ups}
+		if err := s.Prepare(&s.conf); err != nil {
+			rep.Inconcl("cannot prepare the server: " + err.Error())
+
+			return nil, nil, nil
+		}
+		s.queryLog = qlog
+		err := s.Start()
+		if err == nil {
+			break
+		}
+		_ = s.Stop()
+		if try >= 5 || !strings.Contains(err.Error(), "address already in use") {
+			rep.Inconcl("cannot start the server: " + err.Error())
+
+			return nil, nil, nil
+		}
+	}
+	t.Cleanup(func() { _ = s.Stop() })
+
+	doh = httptest.NewUnstartedServer(http.HandlerFunc(s.ServeHTTP))
+	doh.TLS = &tls.Config{Certificates: []tls.Certificate{*s.conf.TLSConf.Cert}}
+	doh.StartTLS()
+	t.Cleanup(doh.Close)
+
+	return s, qlog, doh
+}
+
 // TestVerifC16Handoff drives a running server over real sockets and reads, at
 // the query log, which ClientID the processing stage attached to each
 // request: the ClientID travels from HandleBefore to the processing stage
@@ -156,53 +215,10 @@ func TestVerifC16Handoff(t *testing.T) {
 	}()
 	rng := rep.Rand("handoff")
 
-	ups := aghtest.StartLocalhostUpstream(t, dns.HandlerFunc(func(w dns.ResponseWriter, req *dns.Msg) {
-		resp := (&dns.Msg{}).SetReply(req)
-		if len(req.Question) == 1 && req.Question[0].Qtype == dns.TypeA {
-			resp.Answer = []dns.RR{&dns.A{
-				Hdr: dns.RR_Header{Name: req.Question[0].Name, Rrtype: dns.TypeA, Class: dns.ClassINET, Ttl: 60},
-				A:   net.IP{192, 0, 2, 1},
-			}}
-		}
-		_ = w.WriteMsg(resp)
-	})).String()
-
-	// Fixed free ports, never port 0: dnsproxy sets SO_REUSEPORT.
-	lo := net.IP{127, 0, 0, 1}
-	s, _ := createTestTLS(t, &TLSConfig{
-		TLSListenAddrs: []*net.TCPAddr{{IP: lo, Port: verifkit.FreePort()}},
-		ServerName:     tlsServerName,
-	})
-	qlog := &c16QLog{byName: map[string][]c16LogEntry{}}
-	for try := 0; ; try++ {
-		plain := verifkit.FreePort()
-		s.conf.TLSConf.TLSListenAddrs = []*net.TCPAddr{{IP: lo, Port: verifkit.FreePort()}}
-		s.conf.UDPListenAddrs = []*net.UDPAddr{{IP: lo, Port: plain}}
-		s.conf.TCPListenAddrs = []*net.TCPAddr{{IP: lo, Port: plain}}
-		s.conf.UpstreamDNS = []string{ups}
-		if err := s.Prepare(&s.conf); err != nil {
-			rep.Inconcl("cannot prepare the server: " + err.Error())
-
-			return
-		}
-		s.queryLog = qlog
-		err := s.Start()
-		if err == nil {
-			break
-		}
-		_ = s.Stop()
-		if try >= 5 || !strings.Contains(err.Error(), "address already in use") {
-			rep.Inconcl("cannot start the server: " + err.Error())
-
-			return
-		}
+	s, qlog, doh := c16StartRealServer(t, rep, false)
+	if s == nil {
+		return
 	}
-	t.Cleanup(func() { _ = s.Stop() })
-
-	doh := httptest.NewUnstartedServer(http.HandlerFunc(s.ServeHTTP))
-	doh.TLS = &tls.Config{Certificates: []tls.Certificate{*s.conf.TLSConf.Cert}}
-	doh.StartTLS()
-	defer doh.Close()
 
 	env := &c16HandoffEnv{s: s, doh: doh}
 	env.dohCli = func(sni string) *http.Client {
